@@ -76,8 +76,61 @@ func randCfg(r *vhlib.Rand, i int) caseCfg {
 
 var bnd = []uint32{0, 1, 2, 7, 8, 9, 1 << 14, 1<<23 - 1, 1 << 23, 1<<23 + 1, 1 << 24, 1 << 27, 1 << 31, 1<<32 - 1}
 
+// alias draws a value that is, modulo 2^32, an alias of a small valid value under one of the
+// multiplications the code performs on such a field (block size, blocks per piece, piece
+// size, bits per byte, hash size): k*ceil(2^32/c)+j and k*(2^32/c)+j, so that v*c mod 2^32 is
+// small (resp. equals j*c), and the neighbours of the wrap points 2^32-c, 2^32/c±1.
+func (w *world) alias(r *vhlib.Rand, jmax int) uint32 {
+	cs := []uint64{CS, uint64(w.cfg.ps / CS), uint64(w.cfg.ps), 8, 20}
+	c := cs[r.Intn(len(cs))]
+	if c < 2 {
+		c = CS
+	}
+	q := (uint64(1) << 32) / c
+	qc := (uint64(1)<<32 + c - 1) / c
+	if jmax < 1 {
+		jmax = 1
+	}
+	j := uint64(r.Intn(jmax))
+	kmax := int(c - 1)
+	var k uint64
+	switch r.Intn(5) {
+	case 0:
+		k = 1
+	case 1:
+		k = uint64(kmax)
+	case 2:
+		k = uint64(1 + r.Intn(3))
+	default:
+		k = uint64(1 + r.Intn(kmax))
+	}
+	if k > uint64(kmax) {
+		k = uint64(kmax)
+	}
+	var v uint64
+	switch r.Intn(8) {
+	case 0, 1, 2:
+		v = k*q + j
+	case 3, 4:
+		v = k*qc + j
+	case 5:
+		v = 1<<32 - c
+	case 6:
+		v = q + 1
+	default:
+		v = q - 1
+	}
+	for v >= 1<<32 {
+		v -= q
+	}
+	return uint32(v)
+}
+
 func (w *world) idx(r *vhlib.Rand) uint32 {
 	n := uint32(w.cfg.np)
+	if r.Chance(12) {
+		return w.alias(r, w.cfg.np)
+	}
 	switch r.Intn(10) {
 	case 0, 1, 2, 3:
 		return uint32(r.Intn(int(n)))
@@ -95,6 +148,13 @@ func (w *world) idx(r *vhlib.Rand) uint32 {
 
 func (w *world) begin(r *vhlib.Rand) uint32 {
 	ps := w.cfg.ps
+	if r.Chance(12) {
+		v := w.alias(r, int(ps/CS))
+		if r.Bool() {
+			v = v / CS * CS
+		}
+		return v
+	}
 	switch r.Intn(10) {
 	case 0, 1, 2:
 		return 0
@@ -111,6 +171,9 @@ func (w *world) begin(r *vhlib.Rand) uint32 {
 }
 
 func (w *world) lenv(r *vhlib.Rand) uint32 {
+	if r.Chance(10) {
+		return w.alias(r, 3)
+	}
 	switch r.Intn(4) {
 	case 0, 1:
 		return CS
@@ -217,6 +280,16 @@ func (w *world) genMsg(r *vhlib.Rand) protocol.Message {
 			data = append([]byte(nil), w.info[k*CS:e]...)
 		}
 		switch r.Intn(12) {
+		case 4, 5:
+			// a block number that is an alias of block k once multiplied by the block size
+			if k < chunks {
+				mult := uint32(1 + r.Intn(16383))
+				if r.Chance(30) {
+					mult = r.PickU32(1, 2, 16383, 64, 1024)
+				}
+				return protocol.ExtendedMetadata{Subtype: 2, Type: 1, Piece: mult<<18 + uint32(k), TotalSize: total, Data: data}
+			}
+			return protocol.ExtendedMetadata{Subtype: 2, Type: 1, Piece: w.alias(r, chunks), TotalSize: total, Data: r.Bytes(CS)}
 		case 0:
 			return protocol.ExtendedMetadata{Subtype: 2, Type: 1, Piece: uint32(chunks), TotalSize: total, Data: r.Bytes(CS)}
 		case 1:
@@ -311,7 +384,7 @@ func (w *world) genMsg(r *vhlib.Rand) protocol.Message {
 		switch r.Intn(10) {
 		case 0:
 		case 1:
-			m.MetadataSize = r.PickU32(1, 16383, 16384, 16385, real+1, real-1, 1<<20)
+			m.MetadataSize = r.PickU32(1, 16383, 16384, 16385, real+1, real-1, 1<<20, w.alias(r, int(real)))
 		case 2:
 			m.MetadataSize = r.PickU32(metaCap, metaCap+1, 1<<32-1, metaCap-1, 1<<31)
 			if !r.Chance(25) {
@@ -365,9 +438,9 @@ func (w *world) genMsg(r *vhlib.Rand) protocol.Message {
 	case 25:
 		chunks := (len(w.info) + CS - 1) / CS
 		m := protocol.ExtendedMetadata{Subtype: 2, Type: uint8(r.PickInt(0, 0, 0, 1, 2, 3, 255))}
-		m.Piece = r.PickU32(0, 1, uint32(chunks-1), uint32(chunks), uint32(chunks+1), 1<<18, 1<<32-1, uint32(r.Intn(4)))
+		m.Piece = r.PickU32(0, 1, uint32(chunks-1), uint32(chunks), uint32(chunks+1), 1<<18, 1<<32-1, uint32(r.Intn(4)), w.alias(r, chunks), w.alias(r, chunks))
 		if m.Type == 1 {
-			m.TotalSize = r.PickU32(0, uint32(len(w.info)), 1, metaCap, 1<<32-1)
+			m.TotalSize = r.PickU32(0, uint32(len(w.info)), 1, metaCap, 1<<32-1, uint32(len(w.info)), w.alias(r, len(w.info)))
 			m.Data = w.payload(r)
 			if len(m.Data) == 0 {
 				m.Data = nil
@@ -414,35 +487,68 @@ func opOfMsg(m protocol.Message) string {
 // dangerous: a message whose handling could allocate gigabytes if an index check is
 // missing; such a message is first tried, scaled down, on a twin world.
 func dangerous(m protocol.Message) (protocol.Message, bool) {
-	if h, ok := m.(protocol.Have); ok && h.Index >= 1<<24 {
-		return protocol.Have{Index: 1 << 27}, true
+	switch mm := m.(type) {
+	case protocol.Have:
+		if mm.Index >= 1<<24 {
+			return protocol.Have{Index: 1<<26 + mm.Index%(1<<18)}, true
+		}
+	case protocol.ExtendedMetadata:
+		// a metadata block number sizes the received-blocks bitmap if it is ever accepted;
+		// the scaled-down number is the same modulo 2^18 (= modulo 2^32 once multiplied by
+		// the block size)
+		if mm.Type == 1 && mm.Piece >= 1<<28+1<<18 {
+			mm.Piece = 1<<28 + mm.Piece%(1<<18)
+			return mm, true
+		}
 	}
 	return nil, false
 }
 
-func (w *world) probe(m protocol.Message, scaled protocol.Message) bool {
+// twinByReplay rebuilds the current state in a second world by replaying the explicit ops
+// of the case so far (nothing is emitted or reported while doing so).
+func (w *world) twinByReplay() *world {
 	cfg := w.cfg
-	cfg.magnet = !w.p.VerifState().HasInfo
-	cfg.evcap = 512
 	tw, err := newWorld(w.c, cfg, true)
 	if err != nil {
+		return nil
+	}
+	tw.quiet = true
+	ops := w.c.Case()
+	if len(ops) > 1 {
+		tw.replayOps(ops[1:])
+	}
+	return tw
+}
+
+// probe runs the scaled-down variant of a dangerous message on a twin in the same state and
+// applies the allocation / termination / no-panic clauses to it; false = the real message
+// must not be executed (the violation has been reported).
+func (w *world) probe(m protocol.Message, scaled protocol.Message) bool {
+	tw := w.twinByReplay()
+	if tw == nil || tw.dead {
+		if tw != nil {
+			tw.close()
+		}
 		return true
 	}
 	defer tw.close()
-	var total uint64
-	ta, _ := measure(func() { peer.VerifHandleMessage(tw.p, scaled) })
-	total += ta
-	for _, e := range tw.drainEvents() {
-		ta, _ := measure(func() { tor.VerifHandleEvent(context.Background(), tw.t, e) })
-		total += ta
-	}
-	tw.takePending()
+	mm := scaled
+	tw.runPeer("msg", opOfMsg(scaled), wireSize(scaled), mm, func() error { return peer.VerifHandleMessage(tw.p, mm) })
+	res := tw.last
 	runtime.GC()
-	bound := uint64(allocFactor*wireSize(scaled)) + allocSlack + indexFactor*tw.nmax() + 2*uint64(tw.t.Pieces.PieceSize())
-	if total > bound {
-		name := strings.SplitN(opOfMsg(m), " ", 2)[0]
-		ops := append(w.c.Case(), "msg 00 0 "+opOfMsg(scaled))
-		w.c.Violate("alloc:"+name+":"+infoTok(w), fmt.Sprintf("%d bytes allocated for a %d-byte message (bound %d): %s (scaled-down probe of %s on a twin; the original is not executed)", total, wireSize(scaled), bound, opOfMsg(scaled), opOfMsg(m)), ops)
+	name := strings.SplitN(opOfMsg(m), " ", 2)[0]
+	ops := append(w.c.Case(), "msg 00 0 "+opOfMsg(scaled))
+	note := fmt.Sprintf(" (scaled-down probe of %s on a twin in the same state; the original is not executed)", clip(opOfMsg(m)))
+	switch {
+	case res.hung:
+		hangs++
+		w.c.Violate("hang:peer:msg:"+name+":"+stateTok(w), "the peer handler or the torrent did not return on "+clip(opOfMsg(scaled))+note, ops)
+		return false
+	case res.pn != "":
+		w.c.Violate("panic:peer:msg:"+name+":"+infoTok(w), "peer handler panicked: "+res.pn+" on "+clip(opOfMsg(scaled))+note, ops)
+		return false
+	case res.alloc > res.bound && hangs == 0:
+		w.c.Violate("alloc:"+name+":"+infoTok(w), fmt.Sprintf("%d bytes allocated for a %d-byte message (bound %d): %s", res.alloc, res.wire, res.bound, clip(opOfMsg(scaled)))+note, ops)
 		return false
 	}
 	return true
@@ -465,29 +571,29 @@ func (w *world) oracleOnly(m protocol.Message) {
 	ta, pn := measure(func() { herr = peer.VerifHandleMessage(tw.p, m) })
 	total += ta
 	if pn != "" {
-		w.c.Violate("panic:peer:msg:"+name+":"+infoTok(tw), "peer handler panicked: "+pn+" on "+clip(opOfMsg(m)), []string{tw.newLine(), "msg 00 0 " + opOfMsg(m)})
+		w.violate("panic:peer:msg:"+name+":"+infoTok(tw), "peer handler panicked: "+pn+" on "+clip(opOfMsg(m)), []string{tw.newLine(), "msg 00 0 " + opOfMsg(m)})
 	}
 	for _, e := range tw.drainEvents() {
 		var terr error
 		ta, pn := measure(func() { terr = tor.VerifHandleEvent(context.Background(), tw.t, e) })
 		total += ta
 		if pn != "" {
-			w.c.Violate("panic:tor:"+evName(e), "tor.handleEvent panicked: "+pn, []string{tw.newLine(), "msg 00 0 " + opOfMsg(m)})
+			w.violate("panic:tor:"+evName(e), "tor.handleEvent panicked: "+pn, []string{tw.newLine(), "msg 00 0 " + opOfMsg(m)})
 		} else if terr != nil {
-			w.c.Violate("tor-error:"+evName(e), terr.Error(), []string{tw.newLine(), "msg 00 0 " + opOfMsg(m)})
+			w.violate("tor-error:"+evName(e), terr.Error(), []string{tw.newLine(), "msg 00 0 " + opOfMsg(m)})
 		}
 	}
 	tw.takePending()
-	bound := uint64(allocFactor*wireSize(m)) + allocSlack + indexFactor*tw.nmax() + 2*uint64(tw.t.Pieces.PieceSize())
-	if total > bound {
-		w.c.Violate("alloc:"+name+":"+infoTok(tw), fmt.Sprintf("%d bytes allocated for a %d-byte message (bound %d)", total, wireSize(m), bound), []string{tw.newLine(), "msg 00 0 " + opOfMsg(m)})
+	bound := allocBound(m, wireSize(m), tw.nmax(), uint64(tw.t.Pieces.PieceSize()), len(tw.info))
+	if total > bound && hangs == 0 {
+		w.violate("alloc:"+name+":"+infoTok(tw), fmt.Sprintf("%d bytes allocated for a %d-byte message (bound %d)", total, wireSize(m), bound), []string{tw.newLine(), "msg 00 0 " + opOfMsg(m)})
 	}
-	w.c.Count("oracle-only:"+name+":"+errStr(herr), fmt.Sprintf("%s len=%d alloc=%d", name, wireSize(m), total), true)
+	w.count("oracle-only:"+name+":"+errStr(herr), fmt.Sprintf("%s len=%d alloc=%d", name, wireSize(m), total), true)
 	runtime.GC()
 }
 
 func (w *world) sendMsg(m protocol.Message) {
-	if sc, ok := dangerous(m); ok {
+	if sc, ok := dangerous(m); ok && !w.quiet {
 		if !w.probe(m, sc) {
 			return
 		}
@@ -554,7 +660,7 @@ func (w *world) genPev(r *vhlib.Rand) {
 			cs = append(cs, uint32(r.Intn(w.nchunks())))
 		}
 		t := u32s(cs)
-		w.c.Emit("sched "+t[1:len(t)-1], "ok")
+		w.emit("sched "+t[1:len(t)-1], "ok")
 		vhlib.Recover(func() { tor.VerifRequest(w.t, w.p, cs) })
 		w.pumpPending()
 	}
@@ -577,20 +683,20 @@ func (w *world) envOp(r *vhlib.Rand) {
 				k = w.cfg.wcap/2 + 1
 			}
 			w.setLevel(k)
-			w.c.Emit(fmt.Sprintf("env setw %d", w.level), "ok")
+			w.emit(fmt.Sprintf("env setw %d", w.level), "ok")
 		}
 	case 1:
 		w.fastRate = !w.fastRate
-		w.c.Emit("env rate "+b01(w.fastRate), "ok")
+		w.emit("env rate "+b01(w.fastRate), "ok")
 	case 2:
 		w.p.VerifPinActive(true)
-		w.c.Emit("env age", "ok")
+		w.emit("env age", "ok")
 	case 3:
 		if !w.wdone && r.Chance(30) {
 			close(w.writerDone)
 			w.wdone = true
 			w.setLevel(w.cfg.wcap)
-			w.c.Emit("env wdone", "ok")
+			w.emit("env wdone", "ok")
 		}
 	}
 }
@@ -599,7 +705,7 @@ func (w *world) prelude(r *vhlib.Rand) {
 	if w.dead {
 		return
 	}
-	switch r.Intn(7) {
+	switch r.Intn(8) {
 	case 0: // uploader: interested remote, unchoked by us
 		w.sendMsg(protocol.Interested{})
 		w.pumpPending()
@@ -642,6 +748,40 @@ func (w *world) prelude(r *vhlib.Rand) {
 			w.sendMsg(protocol.HaveAll{})
 			if r.Bool() {
 				w.sendMsg(protocol.Have{Index: 0})
+			}
+		}
+	case 6: // Fast peer, an allowed-fast set, choked (possibly after an unchoke the torrent
+		// sampled), then the torrent's request for blocks inside and outside that set
+		if w.p.VerifState().HasInfo && w.cfg.fast {
+			if r.Bool() {
+				w.sendMsg(protocol.HaveAll{})
+			} else {
+				bs := make([]byte, (w.cfg.np+7)/8)
+				for i := 0; i < w.cfg.np; i++ {
+					bs[i/8] |= 1 << (7 - uint(i%8))
+				}
+				w.sendMsg(protocol.Bitfield{Bitfield: bs})
+			}
+			for i, n := 0, 1+r.Intn(2); i < n && !w.dead; i++ {
+				w.sendMsg(protocol.AllowedFast{Index: uint32(r.Intn(w.cfg.np))})
+			}
+			if !w.dead && r.Bool() {
+				w.sendMsg(protocol.Unchoke{})
+				w.pumpPending()
+				if !w.dead {
+					w.sendMsg(protocol.Choke{})
+					w.pumpPending()
+				}
+			}
+			if !w.dead {
+				var cs []uint32
+				for i, n := 0, 1+r.Intn(4); i < n; i++ {
+					cs = append(cs, uint32(r.Intn(w.nchunks())))
+				}
+				t := u32s(cs)
+				w.emit("sched "+t[1:len(t)-1], "ok")
+				vhlib.Recover(func() { tor.VerifRequest(w.t, w.p, cs) })
+				w.pumpPending()
 			}
 		}
 	case 3: // extension handshake first
@@ -688,6 +828,9 @@ func oneCase(c *vhlib.Ctx, cfg caseCfg, r *vhlib.Rand, script []string) {
 				w.sendMsg(protocol.Flush{})
 			}
 		}
+	}
+	if w.poisoned {
+		return
 	}
 	if script == nil && !w.dead && !w.t.InfoComplete() && r.Chance(30) {
 		// a second peer's extension handshake: another vote for a metadata size
@@ -737,6 +880,10 @@ func (w *world) synthetic(r *vhlib.Rand) {
 func generate(c *vhlib.Ctx) {
 	r := c.R
 	for i := 0; i < c.N; i++ {
+		if hangs >= maxHangs {
+			c.Note(fmt.Sprintf("stopped after %d cases: %d calls of the real code did not return", i, hangs))
+			break
+		}
 		cfg := randCfg(r, i)
 		oneCase(c, cfg, r, nil)
 	}
@@ -801,7 +948,7 @@ func (w *world) replayOps(lines []string) {
 				v, _ := strconv.ParseUint(s, 10, 32)
 				cs = append(cs, uint32(v))
 			}
-			w.c.Emit(l, "ok")
+			w.emit(l, "ok")
 			vhlib.Recover(func() { tor.VerifRequest(w.t, w.p, cs) })
 			w.pumpPending()
 		case "env":
@@ -811,20 +958,20 @@ func (w *world) replayOps(lines []string) {
 				k, _ := strconv.Atoi(f[2])
 				if k > 0 && !w.wdone {
 					w.setLevel(k)
-					w.c.Emit(fmt.Sprintf("env setw %d", w.level), "ok")
+					w.emit(fmt.Sprintf("env setw %d", w.level), "ok")
 				}
 			case "rate":
 				w.fastRate = f[2] == "1"
-				w.c.Emit(l, "ok")
+				w.emit(l, "ok")
 			case "age":
 				w.p.VerifPinActive(true)
-				w.c.Emit(l, "ok")
+				w.emit(l, "ok")
 			case "wdone":
 				if !w.wdone {
 					close(w.writerDone)
 					w.wdone = true
 					w.setLevel(w.cfg.wcap)
-					w.c.Emit(l, "ok")
+					w.emit(l, "ok")
 				}
 			}
 		}
